@@ -8,7 +8,9 @@ def run(ctx):
     negs = {'MC_cluster_neg_order.cfg': 'BatchOrder', 'MC_cluster_neg_txnomulti.cfg': 'TxResentWhole', 'MC_cluster_neg_denied.cfg': 'NoResendAfterDenied',
             # round 2: the transaction flag lost on the refresh-on-pick path / on the ASK sub-batch, a pooled retry object that keeps
             # the length of its ASK index list
-            'MC_cluster_neg_refreshinit.cfg': 'TxResentWhole', 'MC_cluster_neg_askrun.cfg': 'TxResentWhole', 'MC_cluster_neg_pool.cfg': 'BatchOrder'}
+            'MC_cluster_neg_refreshinit.cfg': 'TxResentWhole', 'MC_cluster_neg_askrun.cfg': 'TxResentWhole', 'MC_cluster_neg_pool.cfg': 'BatchOrder',
+            # a block sent again after its replies were lost with the connection (doresultfn before fix bbafe77)
+            'MC_cluster_neg_txloss.cfg': 'TxResentWhole'}
     # round 2: inittx = transactions whose slot is found by a refresh on pick and which are redirected in the same DoMulti;
     # hop = two-hop redirects (ASK -> MOVED by the ASK target, MOVED -> ASK); pool = two batches in a row on one client with
     # ASK-redirected members at several positions (the retry bookkeeping objects are pooled)
